@@ -596,9 +596,12 @@ impl Ctx {
         let nshards = (if part.shards == 0 { self.shards } else { part.shards }).max(1);
         let per_shard = part.cases.div_ceil(nshards as u64).max(1);
         let merged = Mutex::new(Stats::default());
+        // once a shard has reported a violation the others stop exploring (a broken tree must not
+        // make the check run for as long as every shard needs to shrink its own copy of the defect)
+        let part_failed = AtomicBool::new(false);
         std::thread::scope(|sc| {
             for shard in 0..nshards {
-                let (merged, strategy, check, part) = (&merged, &strategy, &check, &part);
+                let (merged, strategy, check, part, part_failed) = (&merged, &strategy, &check, &part, &part_failed);
                 std::thread::Builder::new()
                     .stack_size(16 << 20)
                     .spawn_scoped(sc, move || {
@@ -619,7 +622,11 @@ impl Ctx {
                         let failed = std::cell::Cell::new(false);
                         let last_fail = std::cell::RefCell::new(None::<String>);
                         let strat = strategy();
-                        let res = runner.run(&strat, |case| match self.judge(check, &case) {
+                        let res = runner.run(&strat, |case| {
+                            if part_failed.load(Ordering::Relaxed) && !failed.get() {
+                                return Ok(());
+                            }
+                            match self.judge(check, &case) {
                             Ok(Some(obs)) => {
                                 if !failed.get() {
                                     Self::record(&mut stats.borrow_mut(), &case, &obs, true);
@@ -637,7 +644,7 @@ impl Ctx {
                                 *last_fail.borrow_mut() = Some(format!("{} ({})", f.msg, f.sig));
                                 Err(TestCaseError::fail(f.msg))
                             }
-                        });
+                        }});
                         match res {
                             Ok(()) => {}
                             Err(TestError::Fail(_, case)) => {
@@ -650,6 +657,7 @@ impl Ctx {
                                     self.inconclusive(format!("part {}: failure did not reproduce on re-run of the shrunk case {:?}; last failure seen while shrinking: {:?}", part.name, case, last_fail.borrow()));
                                 } else {
                                     self.report_violation(part.name, &case, &fail, &format!("proptest shard {shard}"));
+                                    part_failed.store(true, Ordering::Relaxed);
                                 }
                             }
                             Err(TestError::Abort(why)) => {
